@@ -186,15 +186,26 @@ class Samples(Job):
     must_reach = ("nt:sample",)
     bounds = dict(pairs=[(a, b) for a, b, _ in PAIRS])
 
-    def run(self, i):
+    def run(self, i, order=0):
         ca, cb, same = self.PAIRS[i]
         w = World()
         with w:
             a, b = Client(w, "A"), Client(w, "B")
             a.open()
             b.open()
-            a.api("set_code", ca)
-            b.api("set_code", cb)
+            if order == 0:
+                a.api("set_code", ca)
+                b.api("set_code", cb)
+            else:
+                # the peer's PAKE arrives before the local code is known (input_code: nameplate first, words later),
+                # on side A (order 1) or side B (order 2)
+                first, fc, second, sc = (b, cb, a, ca) if order == 1 else (a, ca, b, cb)
+                first.api("set_code", fc)
+                w.settle()
+                h = second.api("input_code")
+                h.choose_nameplate(sc.split("-", 1)[0])
+                w.settle()
+                h.choose_words(sc.split("-", 1)[1])
             a.api("send_message", b"x")
             b.api("send_message", b"y")
             w.settle()
@@ -203,8 +214,8 @@ class Samples(Job):
             w.settle()
             return a, b, same
 
-    def verdict(self, i):
-        a, b, same = self.run(i)
+    def verdict(self, i, order=0):
+        a, b, same = self.run(i, order)
         agreed = bool(evs(a, "verifier")) and bool(evs(b, "verifier")) and evs(a, "verifier") == evs(b, "verifier")
         if agreed != same:
             return "codes %r / %r: agreement=%r, expected %r" % (self.PAIRS[i][0], self.PAIRS[i][1], agreed, same)
@@ -214,12 +225,15 @@ class Samples(Job):
 
     def scenario(self):
         i = eng().choose(len(self.PAIRS), "pair")
-        eng().inputs["pair"] = i
-        check(self.verdict(i) is None, "code pair sample")
+        order = eng().choose(3, "order")
+        if order and self.PAIRS[i][0].split("-")[0] != self.PAIRS[i][1].split("-")[0]:
+            raise core._Abort()     # different nameplates never share a mailbox
+        eng().inputs.update(pair=i, order=order)
+        check(self.verdict(i, order) is None, "code pair sample")
         eng().note("nt:sample")
 
     def replay(self, inp, label):
-        return self.verdict(inp["pair"])
+        return self.verdict(inp["pair"], inp.get("order", 0))
 
 
 CONFIGS = {
